@@ -138,6 +138,15 @@ func toPropertyDescriptor(rt *runtime, value Value) property {
 		}
 	}
 
+	// The fields are read in the order of 8.10.5 (the reads are observable):
+	// enumerable, configurable, value, writable, get, set.
+	var dataValue Value
+	hasValue := false
+	if objectDescriptor.hasProperty("value") {
+		dataValue = objectDescriptor.get("value")
+		hasValue = true
+	}
+
 	if objectDescriptor.hasProperty("writable") {
 		if objectDescriptor.get("writable").bool() {
 			descriptor.writeOn()
@@ -177,18 +186,18 @@ func toPropertyDescriptor(rt *runtime, value Value) property {
 		}
 	}
 
+	// Step 9: an accessor with a value or a writable field is rejected after
+	// every field has been read.
 	if getterSetter {
 		if descriptor.writeSet() {
 			panic(rt.panicTypeError("toPropertyDescriptor descriptor writeSet"))
 		}
-		descriptor.value = propertyGetSet{getter, setter}
-	}
-
-	if objectDescriptor.hasProperty("value") {
-		if getterSetter {
+		if hasValue {
 			panic(rt.panicTypeError("toPropertyDescriptor value getterSetter"))
 		}
-		descriptor.value = objectDescriptor.get("value")
+		descriptor.value = propertyGetSet{getter, setter}
+	} else if hasValue {
+		descriptor.value = dataValue
 	}
 
 	return descriptor
